@@ -1,9 +1,9 @@
 package main
 
 import (
-	"github.com/mmcloughlin/avo/ir"
 	"bytes"
 	"fmt"
+	"github.com/mmcloughlin/avo/ir"
 	"go/ast"
 	"go/format"
 	"go/importer"
@@ -330,6 +330,10 @@ func c12(c *Ctx) {
 			}
 		}
 	}
+	// the generator as a user runs it: package-level API, Generate(), command-line flags -out/-stubs/-pkg.
+	// The files written must be the ones the printers produce in-process for the same function and
+	// configuration, and the pair must build and vet as a package.
+	cliProbe(c, dir)
 	var good []string
 	for _, r := range rows {
 		if r != "" {
@@ -355,4 +359,100 @@ func importerDefault() types.Importer { return importer.Default() }
 func lastLine(s string) string {
 	ls := strings.Split(s, "\n")
 	return ls[len(ls)-1]
+}
+
+const cliGenSrc = `//go:build ignore
+
+package main
+
+import (
+	. "github.com/mmcloughlin/avo/build"
+	. "github.com/mmcloughlin/avo/operand"
+)
+
+func main() {
+	ConstraintExpr("amd64,!purego")
+	TEXT("Add", NOSPLIT, "func(x, y uint64) uint64")
+	Doc("Add adds x and y.")
+	Pragma("noescape")
+	x := Load(Param("x"), GP64())
+	y := Load(Param("y"), GP64())
+	ADDQ(x, y)
+	ADDQ(Imm(3), y)
+	Store(y, ReturnIndex(0))
+	RET()
+	Generate()
+}
+`
+
+func cliProbe(c *Ctx, dir string) {
+	o := c.Out
+	gd := filepath.Join(dir, "genpkg")
+	os.MkdirAll(gd, 0o755)
+	defer os.RemoveAll(gd)
+	os.WriteFile(filepath.Join(gd, "gen.go"), []byte(cliGenSrc), 0o644)
+	os.WriteFile(filepath.Join(gd, "go.mod"), []byte("module genpkg\n\ngo 1.23\n\nrequire github.com/mmcloughlin/avo v0.0.0\n\nreplace github.com/mmcloughlin/avo => "+c.Repo+"\n"), 0o644)
+	if sum, err := os.ReadFile(filepath.Join(c.Repo, "go.sum")); err == nil {
+		os.WriteFile(filepath.Join(gd, "go.sum"), sum, 0o644)
+	}
+	expect := func(cfg printer.Config) (asm, stub []byte) {
+		ctx := build.NewContext()
+		ctx.ConstraintExpr("amd64,!purego")
+		ctx.Function("Add")
+		ctx.Attributes(attr.NOSPLIT)
+		ctx.SignatureExpr("func(x, y uint64) uint64")
+		ctx.Doc("Add adds x and y.")
+		ctx.Pragma("noescape")
+		x := ctx.Load(ctx.Param("x"), ctx.GP64())
+		y := ctx.Load(ctx.Param("y"), ctx.GP64())
+		ctx.ADDQ(x, y)
+		ctx.ADDQ(operand.U8(3), y)
+		ctx.Store(y, ctx.ReturnIndex(0))
+		ctx.RET()
+		f, err := ctx.Result()
+		if err != nil {
+			die(err)
+		}
+		if err := pass.Compile.Execute(f); err != nil {
+			die(err)
+		}
+		asm, _ = printer.NewGoAsm(cfg).Print(f)
+		stub, _ = printer.NewStubs(cfg).Print(f)
+		return
+	}
+	for _, run := range []struct {
+		flags []string
+		pkg   string
+	}{
+		{[]string{"-out", "add_amd64.s", "-stubs", "add_stub.go"}, "genpkg"},
+		{[]string{"-out", "other.s", "-stubs", "other.go", "-pkg", "foo"}, "foo"},
+	} {
+		desc := "go run gen.go " + strings.Join(run.flags, " ")
+		idx := o.AddCase(Case{Key: "stub:cli", Desc: desc, Input: map[string]any{"command": desc}, Nontrivial: true})
+		cmd := exec.Command("go", append([]string{"run", "gen.go"}, run.flags...)...)
+		cmd.Dir = gd
+		cmd.Env = append(os.Environ(), "GOFLAGS=-mod=mod")
+		if out, err := cmd.CombinedOutput(); err != nil {
+			o.Plan.GoViolations = append(o.Plan.GoViolations, GoViolation{Key: "cli:generate-fails", Desc: fmt.Sprintf("case %d: %s fails: %s", idx, desc, lastLine(strings.TrimSpace(string(out)))), Replay: map[string]any{"command": desc, "source": cliGenSrc}})
+			continue
+		}
+		wantAsm, wantStub := expect(printer.Config{Argv: append([]string{"go", "run", "gen.go"}, run.flags...), Pkg: run.pkg})
+		gotAsm, e1 := os.ReadFile(filepath.Join(gd, run.flags[1]))
+		gotStub, e2 := os.ReadFile(filepath.Join(gd, run.flags[3]))
+		if e1 != nil || e2 != nil || !bytes.Equal(gotAsm, wantAsm) || !bytes.Equal(gotStub, wantStub) {
+			o.Plan.GoViolations = append(o.Plan.GoViolations, GoViolation{Key: "cli:generate-differs", Desc: fmt.Sprintf("case %d: the files written by `%s` are not the assembly and stubs of the function for package %s", idx, desc, run.pkg), Replay: map[string]any{"command": desc, "asm": string(gotAsm), "want_asm": string(wantAsm), "stub": string(gotStub), "want_stub": string(wantStub)}})
+		}
+	}
+	// the first pair as a package
+	os.Remove(filepath.Join(gd, "other.s"))
+	os.Remove(filepath.Join(gd, "other.go"))
+	for _, step := range [][]string{{"go", "build", "./..."}, {"go", "vet", "./..."}} {
+		cmd := exec.Command(step[0], step[1:]...)
+		cmd.Dir = gd
+		cmd.Env = append(os.Environ(), "GOFLAGS=-mod=mod")
+		if out, err := cmd.CombinedOutput(); err != nil {
+			o.Plan.GoViolations = append(o.Plan.GoViolations, GoViolation{Key: "cli:toolchain:" + step[1], Desc: fmt.Sprintf("`go %s` fails on the files the generator wrote: %s", step[1], lastLine(strings.TrimSpace(string(out)))), Replay: map[string]any{"source": cliGenSrc}})
+			break
+		}
+	}
 }
